@@ -33,6 +33,8 @@ class Sim(object):
         return len(self.objs) - 1
 
     def script(self, fid):
+        if fid == 'sib':
+            return 'pass'
         if fid == 'ep':
             f = self.cfg['endpoint']
         elif fid == 'rn':
@@ -103,9 +105,21 @@ class Sim(object):
         return ('return', r)
 
 
-def simulate(cfg):
-    """Returns dict(trace=[...], outcome=('return'|'raise', obj), status=int) for a request that hits the route."""
+def simulate(cfg, sibling=False):
+    """Returns dict(trace=[...], outcome=('return'|'raise', obj), status=int) for a request that hits the route
+    (sibling=True: for a plain route without own middlewares bound after it in the same application)."""
+    if sibling:
+        import copy
+        cfg = copy.deepcopy(cfg)
+        keep = [i for i, m in enumerate(cfg['mws']) if m['level'] != 'route']
+        for i, m in enumerate(cfg['mws']):
+            if i not in keep:
+                for ph in B.PHASES:
+                    m[ph] = None          # route-level middlewares of the other route do not apply
+        cfg['render'] = None
     stack = B.merged_stack(cfg, 'route')
+    if sibling:
+        stack = [i for i in stack if cfg['mws'][i]['level'] != 'route']
     mws = cfg['mws']
     s = Sim(cfg)
     def al(i):      # an entry may be the very same middleware object as an earlier one
@@ -117,8 +131,10 @@ def simulate(cfg):
     has_render = bool(cfg.get('render'))
     ep_default = 'context' if has_render else 'response'
 
+    leaf_fid = 'sib' if sibling else 'ep'
+
     def process_request():
-        out = s.layer(epl, 0, lambda: s.leaf('ep', ep_default))
+        out = s.layer(epl, 0, lambda: s.leaf(leaf_fid, ep_default))
         if out[0] == 'raise':
             return out
         if out[1]['is_response']:
